@@ -5,6 +5,7 @@ import PromqlVerif.LTS.ConcurrentThms
 import PromqlVerif.Loader
 import PromqlVerif.Sem
 import PromqlVerif.Eng
+import PromqlVerif.LTS.ForkJoinThms
 namespace PromqlVerif.C15
 open PromqlVerif Val
 
@@ -31,6 +32,12 @@ theorem error_propagates_through_agg {V : Type} [Val V] (c : Ctx V) (t : Int) (o
     (g : List String) (e : Expr V) (er : Err) (h : eval c t e = .error er) :
     eval c t (.agg op w g e) = .error er := by
   rw [eval]; simp [h, bind, Except.bind]
+
+/-- across the fork-join of the coalesce operator: if any child fails - in `Series` or in `Next`, by
+error or by panic - the parent returns an error, for every interleaving of the children -/
+theorem error_crosses_the_coalesce_fork_join :
+    ∀ s, LTS.Reach (LTS.ForkJoin.sys LTS.ForkJoin.feat) s → LTS.ForkJoin.errorNotLost s = true :=
+  LTS.ForkJoin.error_not_lost
 
 /-! ### no operator of the engine turns a failing child step into a successful one
 
